@@ -25,6 +25,9 @@ func (c *clipper64) ExecutePolyTree64(clipType ClipType, fillRule FillRule, poly
 
 	c.clipperBase.executeInternal(clipType, fillRule)
 	c.buildTree(polytree.PolyPathBase, &oPaths)
+	for _, path := range oPaths {
+		*openPaths = append(*openPaths, Path64ToPathD(path))
+	}
 
 	c.clearSolutionOnly()
 	return c.succeeded
